@@ -94,6 +94,49 @@ var pinned = []string{
 	"{ }", "a >*<(b)c",
 }
 
+// VerifRoot is the /verif checkout (VERIF_ROOT, else /verif, else the working directory).
+func VerifRoot() string {
+	if d := os.Getenv("VERIF_ROOT"); d != "" {
+		return d
+	}
+	if _, err := os.Stat("/verif/corpus"); err == nil {
+		return "/verif"
+	}
+	return "."
+}
+
+// ExpectedComments maps a pinned regression source to the comment texts it contains (hand-written).
+var ExpectedComments = map[string][]string{}
+
+// LoadRegress reads corpus/c01/regress.txt: entries separated by "%%" lines; leading '#' lines of
+// the FILE before the first separator are a header; an entry may start with "#@comments: a|b".
+func LoadRegress() []string {
+	b, err := os.ReadFile(filepath.Join(VerifRoot(), "corpus", "c01", "regress.txt"))
+	if err != nil {
+		return nil
+	}
+	var out []string
+	for i, blk := range strings.Split(string(b), "\n%%\n") {
+		if i == 0 {
+			continue // header
+		}
+		blk = strings.TrimSuffix(blk, "\n")
+		if strings.HasPrefix(blk, "#@comments:") {
+			line, rest, _ := strings.Cut(blk, "\n")
+			var exp []string
+			for _, t := range strings.Split(strings.TrimPrefix(line, "#@comments:"), "|") {
+				exp = append(exp, t)
+			}
+			blk = rest
+			ExpectedComments[blk] = exp
+		}
+		if blk != "" {
+			out = append(out, blk)
+		}
+	}
+	return out
+}
+
 // LoadCorpus: test-table literals of syntax/filetests_test.go and
 // syntax/printer_test.go (plus pinned witnesses), deduplicated, sorted.
 func LoadCorpus() []string {
@@ -104,6 +147,9 @@ func LoadCorpus() []string {
 		seen[s] = true
 	}
 	for _, s := range pinned {
+		seen[s] = true
+	}
+	for _, s := range LoadRegress() {
 		seen[s] = true
 	}
 	return sortedKeys(seen)
